@@ -922,7 +922,6 @@ func leaderResetsMatch(p *Program, id string) []Obligation {
 	return out
 }
 
-
 // decodedFromRequestConfiguration: v is &c where c was decoded (decodeConfiguration / DecodeConfiguration) from
 // request.Configuration.
 func decodedFromRequestConfiguration(p *Program, f *Frame, v ssa.Value) bool {
